@@ -337,10 +337,10 @@ impl Scenario for AclUnderFailSafe {
         let mut acl_series: Vec<(u64, Vec<String>, bool)> = Vec::new();
         let run = drive_full_with(seed, cfg, &mut |t, states| {
             if let Some(Some(st)) = states.first() {
-                if let Some(f) = st.fabrics.iter().find(|f| f.fab_idx == 1) {
-                    if acl_series.last().map(|(_, a, _)| a != &f.acl).unwrap_or(true) {
-                        acl_series.push((t, f.acl.clone(), st.snap.failsafe.armed));
-                    }
+                // (a fabric which is not there has no ACL entries)
+                let acl = st.fabrics.iter().find(|f| f.fab_idx == 1).map(|f| f.acl.clone()).unwrap_or_default();
+                if acl_series.last().map(|(_, a, _)| a != &acl).unwrap_or(true) {
+                    acl_series.push((t, acl, st.snap.failsafe.armed));
                 }
             }
         });
@@ -348,7 +348,8 @@ impl Scenario for AclUnderFailSafe {
         common_counters(&run, &mut out);
         let r = results(&run, 1);
         let ok = |name: &str, nth: usize| r.iter().filter(|(n, _, _)| *n == name).nth(nth).map(|(_, c, _)| *c == 0xffff).unwrap_or(false);
-        let armed = ok("arm_failsafe_checked", 0);
+        // The scenario is about a commissioned device: the commissioning itself must have gone through
+        let armed = ok("commission", 0) && ok("arm_failsafe_checked", 0);
         let written = ok("acl_write", 0);
         let has_extra = |acl: &Vec<String>| acl.iter().any(|e| e.contains(&format!("{}", EXTRA_SUBJECT)));
         let final_acl = acl_series.last().map(|(_, a, _)| a.clone());
@@ -506,7 +507,11 @@ impl Scenario for ForeignAdminDuringPaseFailSafe {
                 series.iter().map(|(t, ar, f, w, p)| (t / 1000, *ar, *f, *w, *p)).collect::<Vec<_>>()
             )
         };
-        if let (true, Some((true, t_pase)), Some((_, code, t_cmd))) = (run.all_done, pase_ok, cmd) {
+        // The scenario is about a commissioned device whose own fail-safe has ended
+        let commissioned = a.iter().any(|(n, c, t)| {
+            *n == "commission" && *c == 0xffff && pase_ok.map(|(_, tp)| *t + 2 * SEC < tp).unwrap_or(false)
+        }) && a.iter().any(|(n, c, t)| *n == "open_window" && *c == 0xffff && pase_ok.map(|(_, tp)| *t < tp).unwrap_or(false));
+        if let (true, Some((true, t_pase)), Some((_, code, t_cmd))) = (run.all_done && commissioned, pase_ok, cmd) {
             // The command arrived while the PASE-armed fail-safe was certainly still running
             // (it lasts 60 s from the PASE establishment)
             if t_cmd > t_pase && t_cmd < t_pase + 40 * SEC {
